@@ -150,6 +150,23 @@ impl Prop for C17 {
             palette.push(pool.remove(i));
         }
         cfg.set("blame-palette", &palette.iter().map(|c| c.to_string()).collect::<Vec<_>>().join(" "));
+        // a palette of 24-bit colours, some of them close to each other (the shipped themes have
+        // such palettes): whatever the colour depth, lines of different attribution must stay
+        // distinguishable, i.e. the *rendered* colours are what the invariants below are about
+        let hex_palette = t.chance(1, 5);
+        if hex_palette {
+            let mut hp: Vec<&str> = vec!["#483d8b", "#663399", "#2f4f4f", "#2e8b57", "#191970", "#000080", "#8b0000", "#800000"];
+            let mut chosen: Vec<&str> = Vec::new();
+            for _ in 0..np.min(hp.len()) {
+                let i = t.below(hp.len());
+                chosen.push(hp.remove(i));
+            }
+            cfg.set("blame-palette", &chosen.join(" "));
+            if t.coin() {
+                cfg.set("true-color", "never");
+            }
+            ctx.class("hex-palette");
+        }
         let fmt = t.ps(FORMATS);
         cfg.set("blame-format", fmt);
         let sep = t.ps(SEP_FORMATS);
@@ -178,9 +195,9 @@ impl Prop for C17 {
         if rows_.len() != lines.len() {
             return fail("row-count", format!("{} blame lines in, {} rows out", lines.len(), rows_.len()));
         }
-        let is_pal = |c: Color| matches!(c, Color::Idx(n) if palette.contains(&n));
-        let mut last_colour: BTreeMap<usize, u8> = BTreeMap::new();
-        let mut prev: Option<(usize, u8)> = None;
+        let is_pal = |c: Color| if hex_palette { c != Color::Default && Tag::from_color(c).is_none() } else { matches!(c, Color::Idx(n) if palette.contains(&n)) };
+        let mut last_colour: BTreeMap<usize, Color> = BTreeMap::new();
+        let mut prev: Option<(usize, Color)> = None;
         let (mut reappear, mut forced) = (false, false);
         let has_n = sep.contains("{n");
         for (i, (row, l)) in rows_.iter().zip(lines.iter()).enumerate() {
@@ -194,11 +211,11 @@ impl Prop for C17 {
                 _ => return fail("row-shape", format!("row {} has no separator cells: `{}`", i, row.text())),
             };
             let meta: String = cells[..first_sep].iter().map(|x| x.text.as_str()).collect();
-            let colour = match cells[..first_sep].first().map(|x| x.st.bg) {
-                Some(Color::Idx(n)) if is_pal(Color::Idx(n)) => n,
+            let colour: Color = match cells[..first_sep].first().map(|x| x.st.bg) {
+                Some(c) if is_pal(c) => c,
                 other => return fail("row-colour", format!("row {}: metadata is not painted with a palette colour ({:?}): `{}`", i, other, row.text())),
             };
-            if cells[..first_sep].iter().any(|x| x.st.bg != Color::Idx(colour)) {
+            if cells[..first_sep].iter().any(|x| x.st.bg != colour) {
                 return fail("row-colour", format!("row {}: metadata cells carry several backgrounds: `{}`", i, row.text()));
             }
             // code
@@ -211,8 +228,8 @@ impl Prop for C17 {
                 if let Some(x) = cells[last_sep + 1..].iter().find(|x| !x.text.trim().is_empty() && Tag::from_color(x.st.bg) != Some(Tag::BlameCode)) {
                     return fail("code-style", format!("line {}: code cell `{}` is not painted with blame-code-style", i, x.text));
                 }
-            } else if let Some(x) = cells[last_sep + 1..].iter().find(|x| x.st.bg != Color::Idx(colour)) {
-                return fail("code-colour", format!("line {}: code cell `{}` does not carry the line's colour {}", i, x.text, colour));
+            } else if let Some(x) = cells[last_sep + 1..].iter().find(|x| x.st.bg != colour) {
+                return fail("code-colour", format!("line {}: code cell `{}` does not carry the line's colour {:?}", i, x.text, colour));
             }
             // attribution: metadata or blanks of equal width
             let same_as_prev = prev.map(|(pc, _)| commits[pc].hash == c.hash && commits[pc].author == c.author && ts_input(&commits[pc]) == ts_input(c)).unwrap_or(false);
@@ -264,16 +281,16 @@ impl Prop for C17 {
             if let Some((pc, pcol)) = prev {
                 let same_attr = same_as_prev;
                 if same_attr && colour != pcol {
-                    return fail("colour-same-attribution", format!("line {} has the attribution of the line above but colour {} instead of {}", i, colour, pcol));
+                    return fail("colour-same-attribution", format!("line {} has the attribution of the line above but colour {:?} instead of {:?}", i, colour, pcol));
                 }
                 if !same_attr && colour == pcol {
-                    return fail("colour-collision", format!("line {} ({}) is attributed differently from the line above ({}) but has the same colour {}", i, c.hash, commits[pc].hash, colour));
+                    return fail("colour-collision", format!("line {} ({}) is attributed differently from the line above ({}) but has the same colour {:?}", i, c.hash, commits[pc].hash, colour));
                 }
                 if !same_attr {
                     if let Some(lc) = last_colour.get(&l.commit) {
                         reappear = true;
                         if *lc != pcol && colour != *lc {
-                            return fail("colour-not-kept", format!("commit {} reappears on line {}: it had colour {}, the line above has {}, yet it is now painted {}", c.hash, i, lc, pcol, colour));
+                            return fail("colour-not-kept", format!("commit {} reappears on line {}: it had colour {:?}, the line above has {:?}, yet it is now painted {:?}", c.hash, i, lc, pcol, colour));
                         }
                         if *lc == pcol {
                             forced = true;
